@@ -182,6 +182,7 @@ func (fv *FnVC) finishReturn(in *inst, r retInfo, suffix string) {
 		ce3.it0 = snap.st
 		ce3.it0vars = snap.vars
 		ce3.pre = snap.pre
+		ce3.prevars = snap.prevars
 		ce3.vars["exited"] = bval("true")
 		ce3.vars["continued"] = bval("false")
 		ce3.where = fmt.Sprintf("%s loop %d exit", funcKey(f), l.ord)
